@@ -4,7 +4,7 @@
    (coq/CQueue/Spec.v), [ghost_run] the specification instrumented with the
    record of what was added / fetched / cancelled (coq/CQueue/SpecProps.v). *)
 From Coq Require Import List NArith Sorting.Sorted Permutation.
-From DesVerif Require Import CQueue.Model CQueue.Spec CQueue.ListX CQueue.Refine CQueue.Sim CQueue.SpecProps.
+From DesVerif Require Import CQueue.Model CQueue.Spec CQueue.ListX CQueue.Refine CQueue.InvBits CQueue.Sim CQueue.SpecProps.
 Import ListNotations.
 Open Scope N_scope.
 
@@ -38,6 +38,18 @@ Theorem C01_invariant_reachable : forall n t ops, n <> 0 -> t <> 0 ->
   Rst (fst (run_from true (init n t) ops)) (fst (sp_run_from sp_init ops)).
 Proof. exact cq_inv_reachable. Qed.
 Print Assumptions C01_invariant_reachable.
+
+(* The executable representation-invariant bits (sorted buckets, bucket
+   membership by index, no pending event older than the clock, len counter,
+   window alignment) -- the same five predicates the harness evaluates on
+   CQueue::verif_snapshot() -- are all ones in every reachable state. *)
+Theorem C01_invariant_bits_reachable : forall n t ts ops, n <> 0 -> t <> 0 ->
+  inv_bits (sq (fst (run_from true (init_at n t ts) ops))) = [1; 1; 1; 1; 1].
+Proof.
+  intros n t ts ops Hn Ht. destruct (cq_inv_reachable_at n t ts ops Hn Ht) as [HR _].
+  exact (CQueue.InvBits.R_inv_bits _ _ _ HR).
+Qed.
+Print Assumptions C01_invariant_bits_reachable.
 
 (* The head/t0/t1 scan of fetch_next terminates on every reachable state. *)
 Theorem C01_scan_terminates : forall n t ts ops, n <> 0 -> t <> 0 ->
